@@ -208,4 +208,339 @@ def c01(res, rng, tier, replay=None):
         known_line(res, kf, bit(a) != s, 'glob=%r path=%r is_match=%s documented=%s' % (w['glob'], w['path'], bit(a), s))
 
 
-PROPS = {'C01': c01}
+
+# ---- shared helpers for the query properties --------------------------------------------------------------
+def prepare(res, rng, n, wild=0.06, npaths=(14, 12)):
+    exprs = gen_exprs(rng, n, wild)
+    items = stage_globs(exprs)
+    note_shapes(res, items)
+    built = stage_match(items, rng, npaths)
+    return items, built
+
+
+def matched_paths(it):
+    if it.imm is None:
+        return []
+    return [p for p, r in zip(it.paths, it.imm) if bit(r) == '1']
+
+
+def parse_depth(d):
+    """'I3' -> (3, 3); 'V2..-' -> (2, None); 'V-..4' -> (0, 4)"""
+    if d.startswith('I'):
+        return int(d[1:]), int(d[1:])
+    lo, hi = d[1:].split('..')
+    return (0 if lo == '-' else int(lo)), (None if hi == '-' else int(hi))
+
+
+def tree_iter(t):
+    yield t
+    for c in t.get('ch', []):
+        yield from tree_iter(c)
+
+
+def replay_generic(replay):
+    c = replay['case']
+    cmds = []
+    if 'glob' in c:
+        cmds.append('glob ' + hx(c['glob']))
+        if 'path' in c:
+            cmds.append('mm %s %s' % (hx(c['glob']), hx(c['path'])))
+    for cmd, out in zip(cmds, W.run_impl(cmds)):
+        print('impl:', cmd.split(' ')[0], out[:600])
+    for cmd, out in zip(cmds, W.run_model(cmds)):
+        print('model:', cmd.split(' ')[0], out[:600])
+    print('case:', json.dumps(c, ensure_ascii=False))
+    return 1
+
+
+# ---- C10 depth ---------------------------------------------------------------------------------------------------
+def c10(res, rng, tier, replay=None):
+    if replay:
+        return replay_generic(replay)
+    n = sizes(tier, 1500, 20000)
+    res.rule = ('ExprGen globs (see C01) x sampled paths; non-trivial = distinct (glob, canonical matched path with >= 1 component '
+                'that agrees with has_root); tie: depth() of implementation vs model (exact variance); oracle: component count of every '
+                'such matched path lies within the depth variance the implementation reports')
+    items, built = prepare(res, rng, n)
+    tie_fields(res, items, ['depth'], 'C10 depth()')
+    kfs = {k['class']: k for k in W.known_findings('C10')}
+    for it in built:
+        d = it.if_.get('depth', '!')
+        if d == '!':
+            continue
+        lo, hi = parse_depth(d)
+        root = it.if_.get('root')
+        for p in matched_paths(it):
+            if not G.canonical(p) or G.ncomp(p) < 1:
+                continue
+            if (root == 'A') != p.startswith('/'):
+                continue
+            res.evaluations += 1
+            res.nontrivial.add((it.e, p))
+            k = G.ncomp(p)
+            if k < lo or (hi is not None and k > hi):
+                cls = c10_class(it)
+                if cls and cls in kfs:
+                    res.known_hits[cls] = res.known_hits.get(cls, 0) + 1
+                else:
+                    res.oracle_fail('a matched canonical path has a component count outside the reported depth variance',
+                                    {'glob': it.e, 'path': p, 'components': k, 'depth': d, 'class': cls})
+                break
+        res.sample({'glob': it.e, 'depth': d})
+    for cls, kf in kfs.items():
+        w = kf['witness']
+        g = W.fields(W.run_impl(['glob ' + hx(w['glob'])])[0])[1]
+        m = W.run_impl(['mm %s %s' % (hx(w['glob']), hx(w['path']))])[0]
+        lo, hi = parse_depth(g.get('depth', 'I0'))
+        k = G.ncomp(w['path'])
+        known_line(res, kf, bit(m) == '1' and (k < lo or (hi is not None and k > hi)),
+                   'glob=%r path=%r components=%d depth=%s' % (w['glob'], w['path'], k, g.get('depth')))
+
+
+def c10_class(it):
+    if it.cls.get('stable') == '0':
+        return 'unstable_tree_position'
+    if it.cls.get('rft') == '1':
+        return 'rooted_first_tree'
+    if it.cls.get('closedvar') == '1':
+        return 'closed_variant_finalize'
+    return None
+
+
+# ---- C11 text -------------------------------------------------------------------------------------------------------
+def has_sep_class(t):
+    return any(n['k'] == 'C' and any((len(a) == 1 and a[0] == 47) or (len(a) == 2 and a[0] <= 47 <= a[1]) for a in n['archs'])
+               for n in tree_iter(t))
+
+
+def c11(res, rng, tier, replay=None):
+    if replay:
+        return replay_generic(replay)
+    n = sizes(tier, 1500, 20000)
+    res.rule = ('ExprGen globs biased to invariant shapes x sampled paths + the reported text itself; non-trivial = distinct (glob, path); '
+                'tie: text() impl vs model; oracle: invariant text => every matched path equals it, and it matches unless a class lists `/`; '
+                'two distinct matched paths => variant')
+    exprs = gen_exprs(rng, n // 2)
+    g = G.ExprGen(rng, wild=0.02, maxdepth=2)
+    inv_lits = ['a', 'b', 'ab', '.', '..', 'é', '1', 'x.txt', 'ǅ', 'K', 'ß']
+    while len(exprs) < n:
+        parts = []
+        for _ in range(rng.randint(1, 4)):
+            x = rng.random()
+            a = rng.choice(inv_lits) if x < 0.5 else '[%s]' % rng.choice('abé1') if x < 0.62 else \
+                '{%s}' % rng.choice(inv_lits) if x < 0.72 else '<%s:%d>' % (rng.choice(inv_lits), rng.randint(1, 3)) if x < 0.82 else \
+                '(?i)' + rng.choice(inv_lits + ['1', '.', '-']) if x < 0.92 else g.component(1)
+            parts.append(a)
+        exprs.append(rng.choice(['', '', '/']) + '/'.join(parts))
+    items = stage_globs(exprs)
+    note_shapes(res, items)
+    built = stage_match(items, rng)
+    tie_fields(res, items, ['text'], 'C11 text()')
+    # add the reported text as a path
+    extra = [it for it in built if it.if_.get('text', 'V').startswith('I')]
+    outs = W.run_impl(['mm %s %s' % (hx(it.e), it.if_['text'][1:]) for it in extra])
+    for it, o in zip(extra, outs):
+        txt = W.unhx(it.if_['text'][1:])
+        res.evaluations += 1
+        res.nontrivial.add((it.e, txt))
+        res.count('invariant')
+        if bit(o) != '1' and not has_sep_class(it.tree):
+            res.oracle_fail('the reported invariant text is not matched', {'glob': it.e, 'text': txt, 'impl': o})
+        for p in matched_paths(it):
+            if p != txt:
+                res.oracle_fail('a path other than the reported invariant text is matched', {'glob': it.e, 'text': txt, 'path': p})
+                break
+        res.sample({'glob': it.e, 'text': txt})
+    for it in built:
+        res.evaluations += len(it.paths)
+        for p in it.paths:
+            res.nontrivial.add((it.e, p))
+
+
+# ---- C12 root / semantic literals ------------------------------------------------------------------------------------
+def expected_semantic(t):
+    for n in tree_iter(t):
+        if n['k'] != 'K':
+            continue
+        comp = []
+        comps = []
+        for c in n['ch']:
+            if c['k'] in ('S', 'T'):
+                comps.append(comp)
+                comp = []
+            else:
+                comp.append(c)
+        comps.append(comp)
+        for comp in comps:
+            if comp and all(c['k'] == 'L' for c in comp) and ''.join(c['text'] for c in comp) in ('.', '..'):
+                return True
+    return False
+
+
+def starts_rooting(t):
+    k = t['k']
+    if k == 'S':
+        return True
+    if k == 'T':
+        return t['root']
+    if k == 'A':
+        return any(starts_rooting(c) for c in t['ch'])
+    if k in ('K', 'R'):
+        return bool(t['ch']) and starts_rooting(t['ch'][0])
+    return False
+
+
+def nested_rooting(t):
+    """an alternation branch or a repetition body begins with a *branch* token that can begin with
+    a separator or a rooted tree wildcard (rooting is only checked on leaf terminals)"""
+    for n in tree_iter(t):
+        if n['k'] in ('A', 'R'):
+            for b in n['ch']:
+                first = b['ch'][0] if b['k'] == 'K' and b['ch'] else b
+                if first['k'] in ('A', 'R') and starts_rooting(first):
+                    return True
+    return False
+
+
+def c12(res, rng, tier, replay=None):
+    if replay:
+        return replay_generic(replay)
+    n = sizes(tier, 1500, 20000)
+    res.rule = ('ExprGen globs (many rooted, many with `.`/`..` components at every nesting depth) and any() combinators x sampled paths; '
+                'non-trivial = distinct (pattern, path); tie: has_root(), has_semantic_literals() impl vs model; oracle: Always => every '
+                'matched path starts with `/`; a glob is never Sometimes; a component spelled `.` or `..` anywhere => semantic literals')
+    items, built = prepare(res, rng, n)
+    tie_fields(res, items, ['root', 'sem'], 'C12 has_root()/has_semantic_literals()')
+    kfs = {k['class']: k for k in W.known_findings('C12')}
+    for it in built:
+        root = it.if_.get('root')
+        res.count('root:' + str(root))
+        if root == 'S':
+            if 'nested_rooting' in kfs and nested_rooting(it.tree):
+                res.known_hits['nested_rooting'] = res.known_hits.get('nested_rooting', 0) + 1
+            else:
+                res.oracle_fail('a glob reports that it is sometimes rooted', {'glob': it.e})
+        for p in it.paths:
+            res.evaluations += 1
+            res.nontrivial.add((it.e, p))
+        if root == 'A':
+            for p in matched_paths(it):
+                if not p.startswith('/'):
+                    res.oracle_fail('always rooted but a matched path does not begin with a separator', {'glob': it.e, 'path': p})
+                    break
+        if expected_semantic(it.tree):
+            res.count('semantic')
+            if it.if_.get('sem') != '1':
+                res.oracle_fail('a component spelled `.` or `..` is not reported as a semantic literal', {'glob': it.e})
+        res.sample({'glob': it.e, 'root': root, 'sem': it.if_.get('sem')})
+    for cls, kf in kfs.items():
+        g_ = W.fields(W.run_impl(['glob ' + hx(kf['witness']['glob'])])[0])[1]
+        known_line(res, kf, g_.get('root') == 'S', 'glob=%r has_root=%s' % (kf['witness']['glob'], g_.get('root')))
+    # combinators
+    fams = []
+    ok = [it for it in built]
+    for _ in range(min(len(ok) // 2, sizes(tier, 300, 4000))):
+        k = rng.choice([1, 2, 2, 3])
+        fams.append(rng.sample(ok, k))
+    cmds = ['any ' + ' '.join(hx(it.e) for it in f) for f in fams]
+    io, mo = W.run_impl(cmds), W.run_model(cmds)
+    mcmds, keep = [], []
+    for f, a, b in zip(fams, io, mo):
+        ha, fa = W.fields(a)
+        hb, fb = W.fields(b)
+        if ha != hb or (ha == 'ok' and fa.get('root') != fb.get('root')):
+            res.tie_fail('C12 has_root() of a combinator differs', {'any': [it.e for it in f], 'impl': a[:200], 'model': b[:200]})
+        if ha == 'ok' and fa.get('root') == 'A':
+            ps = [p for it in f for p in it.paths[:10]]
+            mcmds.append('anymm %d %s %s' % (len(f), ' '.join(hx(it.e) for it in f), ' '.join(hx(p) for p in ps)))
+            keep.append((f, ps))
+    for (f, ps), o in zip(keep, W.run_impl(mcmds)):
+        if o in ('panic', 'err'):
+            continue
+        for p, r in zip(ps, o.split('|')):
+            res.evaluations += 1
+            if bit(r) == '1' and not p.startswith('/'):
+                res.oracle_fail('combinator always rooted but a matched path does not begin with a separator',
+                                {'any': [it.e for it in f], 'path': p})
+                break
+
+
+# ---- C09 exhaustiveness -----------------------------------------------------------------------------------------------
+def descendants(p, rng):
+    tails = ['x', 'x/y', 'a', 'b/a', 'é', '.git', 'x\ny']
+    out = []
+    for t in rng.sample(tails, 3):
+        out.append(p + t if p in ('', '/') else p + '/' + t)
+    return out
+
+
+def c09(res, rng, tier, replay=None):
+    if replay:
+        return replay_generic(replay)
+    n = sizes(tier, 1500, 20000)
+    res.rule = ('ExprGen globs biased to end in tree wildcards / branches after tree wildcards, and any() of them; non-trivial = distinct '
+                '(pattern, matched canonical path, descendant); tie: is_exhaustive() and the exhaustive / non-exhaustive partition of a negation '
+                'impl vs model; oracle: Always => every canonical descendant of a matched canonical path is matched')
+    exprs = gen_exprs(rng, n // 2)
+    g = G.ExprGen(rng, wild=0.03, maxdepth=2)
+    tails = ['/**', '**', '**/*', '**/{%s}', '**/<%s:1,2>', '/**/<%s:>', '{%s,**/%s}', '<*/>', '**/*/', '{a/**,%s/**}', '<%s/**:1,>',
+             '**/%s/**', '{**/%s,b/**}', '<%s/:1,>**', '**/{%s,%s/**}', '{%s/**,**}']
+    while len(exprs) < n:
+        t = rng.choice(tails)
+        t = t.replace('%s', '\0')
+        while '\0' in t:
+            t = t.replace('\0', rng.choice(['a', 'b', 'ab', g.component(1)]), 1)
+        head = rng.choice(['', '', g.component(1) + '/', '/', g.glob(1, sub=True) + '/'])
+        e = head + t
+        exprs.append(e if not (head.endswith('/') and t.startswith('/')) else head + t[1:])
+    items = stage_globs(exprs)
+    note_shapes(res, items)
+    built = stage_match(items, rng)
+    tie_fields(res, items, ['exh'], 'C09 is_exhaustive()')
+    kfs = {k['class']: k for k in W.known_findings('C09')}
+    # negation partitions
+    ncmds = ['not ' + hx(it.e) for it in built[:sizes(tier, 400, 5000)]]
+    for c, a, b in zip(ncmds, W.run_impl(ncmds), W.run_model(ncmds)):
+        if a != b:
+            res.tie_fail('C09 partition of a negation into exhaustive / non-exhaustive programs differs', {'cmd': c, 'impl': a[:300], 'model': b[:300]})
+    always = [it for it in built if it.if_.get('exh') == 'A']
+    cmds, keep = [], []
+    for it in always:
+        ps = [p for p in matched_paths(it) if G.canonical(p)]
+        ds = [(p, q) for p in ps[:8] for q in descendants(p, rng)]
+        if ds:
+            cmds.append('mm %s %s' % (hx(it.e), ' '.join(hx(q) for _, q in ds)))
+            keep.append((it, ds))
+    res.count('always', len(always))
+    for (it, ds), o in zip(keep, W.run_impl(cmds)):
+        if o in ('panic', 'err'):
+            continue
+        for (p, q), r in zip(ds, o.split('|')):
+            res.evaluations += 1
+            res.nontrivial.add((it.e, p, q))
+            if bit(r) != '1':
+                cls = c09_class(it, p)
+                if cls and cls in kfs:
+                    res.known_hits[cls] = res.known_hits.get(cls, 0) + 1
+                else:
+                    res.oracle_fail('always exhaustive but a descendant of a matched path is not matched',
+                                    {'glob': it.e, 'path': p, 'descendant': q, 'class': cls})
+                break
+        res.sample({'glob': it.e, 'exh': 'A', 'checked': [q for _, q in ds[:3]]})
+    for cls, kf in kfs.items():
+        w = kf['witness']
+        g_ = W.fields(W.run_impl(['glob ' + hx(w['glob'])])[0])[1]
+        m = W.run_impl(['mm %s %s %s' % (hx(w['glob']), hx(w['path']), hx(w['descendant']))])[0].split('|')
+        known_line(res, kf, g_.get('exh') == 'A' and len(m) == 2 and bit(m[0]) == '1' and bit(m[1]) == '0',
+                   'glob=%r is_exhaustive=%s matches %r but not %r' % (w['glob'], g_.get('exh'), w['path'], w['descendant']))
+
+
+def c09_class(it, p):
+    if p in ('', '/') and (it.cls.get('endsep') == '1' or it.cls.get('fnull') == '1'):
+        return 'trailing_boundary'
+    if it.cls.get('optrep') == '1':
+        return 'optional_repetition'
+    return None
+
+
+PROPS = {'C01': c01, 'C09': c09, 'C10': c10, 'C11': c11, 'C12': c12}
